@@ -288,6 +288,78 @@ func c15FindLookupsBytes(r *run.Run) {
 		})
 }
 
+// c15SharedLangSys: several language system records of a script table may point at one LangSys table
+// (font compilers merge identical ones); every record keeps its language system.
+func c15SharedLangSys(r *run.Run) {
+	r.Explore(explore.Config{Name: "C15.shared-langsys"},
+		"GSUB tables assembled byte by byte: a latn script table with a default language system and records for DEU and TRK, each of the three pointing at one of two LangSys tables (all 8 assignments: shared offsets in every combination), the two tables stored in either order: gtab.Read keeps all three language systems, and FindLookups for de / tr selects the lookups of the table the record points at",
+		func(c *explore.Ctx) {
+			var pick [3]int
+			for i, n := range []string{"default", "DEU", "TRK"} {
+				pick[i] = c.Choose(2, "LangSys of "+n)
+			}
+			swap := c.Bool("second LangSys table stored first")
+			langSys := func(feature int) []byte { return be16(0, 0xFFFF, 1, feature) }
+			tabs := [][]byte{langSys(0), langSys(1)}
+			hdrLen := 4 + 2*6
+			offs := [2]int{hdrLen, hdrLen + len(tabs[0])}
+			body := append(append([]byte{}, tabs[0]...), tabs[1]...)
+			if swap {
+				offs = [2]int{hdrLen + len(tabs[1]), hdrLen}
+				body = append(append([]byte{}, tabs[1]...), tabs[0]...)
+			}
+			scriptTable := be16(offs[pick[0]], 2)
+			scriptTable = append(scriptTable, []byte("DEU ")...)
+			scriptTable = append(scriptTable, be16(offs[pick[1]])...)
+			scriptTable = append(scriptTable, []byte("TRK ")...)
+			scriptTable = append(scriptTable, be16(offs[pick[2]])...)
+			scriptTable = append(scriptTable, body...)
+			scriptList := append(append(be16(1), []byte("latn")...), be16(8)...)
+			scriptList = append(scriptList, scriptTable...)
+			feature := func(lookup int) []byte { return be16(0, 1, lookup) }
+			featureList := append(be16(2), []byte("aaaa")...)
+			featureList = append(featureList, be16(14)...)
+			featureList = append(featureList, []byte("bbbb")...)
+			featureList = append(featureList, be16(20)...)
+			featureList = append(featureList, feature(0)...)
+			featureList = append(featureList, feature(1)...)
+			single := func(gid, delta int) []byte {
+				return append(be16(1, 0, 1, 8), be16(1, 6, delta, 1, 1, gid)...)
+			}
+			l0, l1 := single(1, 1), single(2, 1)
+			lookupList := append(be16(2, 6, 6+len(l0)), append(l0, l1...)...)
+			hdr := be16(1, 0, 10, 10+len(scriptList), 10+len(scriptList)+len(featureList))
+			data := append(append(append(hdr, scriptList...), featureList...), lookupList...)
+			desc := fmt.Sprintf("default/DEU/TRK -> LangSys %v, swapped %v", pick, swap)
+			c.Sample(func() any { return desc })
+			c.Outcome(desc)
+			info, err := gtab.Read(bytes.NewReader(data), gtab.TypeGsub)
+			if err != nil {
+				c.Fail("C15.findlookups", "shared LangSys / read", "gtab.Read rejects the assembled table: %v (%s)", err, desc)
+				return
+			}
+			c.Nontrivial()
+			if len(info.ScriptList) != 3 {
+				c.Fail("C15.findlookups", "shared LangSys / records", "the script list has %d language systems, the table 3 (%s)", len(info.ScriptList), desc)
+				return
+			}
+			on := map[string]bool{"aaaa": true, "bbbb": true}
+			// (which language system an undetermined language selects is the matcher's business: only the
+			// languages that have a record of their own are pinned)
+			for i, tag := range []language.Tag{language.Und, language.German, language.Turkish} {
+				if i == 0 {
+					continue
+				}
+				got := info.FindLookups(tag, on)
+				want := []gtab.LookupIndex{gtab.LookupIndex(pick[i])}
+				if fmt.Sprint(got) != fmt.Sprint(want) {
+					c.Fail("C15.findlookups", "shared LangSys / selection", "FindLookups(%v) selects %v, its language system lists the feature of lookup %v (%s)", tag, got, want, desc)
+					return
+				}
+			}
+		})
+}
+
 func c15Layout(r *run.Run) {
 	alphabet := []rune{'f', 'i', 'A', 'B', 'Z', 0x1F600}
 	maxLen := 3
@@ -747,6 +819,7 @@ func init() {
 		c15Ligatures(r)
 		c15FindLookups(r)
 		c15FindLookupsBytes(r)
+		c15SharedLangSys(r)
 		c15Kern(r)
 		c15FlagPairs(r)
 		c15MapOrderFind(r)
